@@ -325,6 +325,7 @@ fn templates() -> Vec<(&'static str, &'static str)> {
         ("eof-comment", "local   a = 1\nlocal b   = 2\n-- trailing comment at eof   \n\n\n"),
         ("no-final-newline", "local   a = 1\nlocal b   = 2"),
         ("blank-before-in-range", "local a   =  1\n\nlocal   b = 2\n\n\nlocal c  =   3\ndo\n  local x   = 1\n\n  local   y = 2\nend\n"),
+        ("multibyte", "-- ✓✓✓✓✓✓✓✓✓✓✓✓✓✓✓✓✓✓✓✓✓✓✓✓\nlocal   a  =  'é'\nlocal   b  =  2\nlocal   c =   3 -- ü\n"),
         ("requires", "local zebra   =   require(\"zebra\")\nlocal apple =   require(\"apple\")\nlocal   mango = require(\"mango\")\nlocal x   = 1\n"),
     ]
 }
@@ -404,6 +405,11 @@ pub fn run_item(w: &W, ctx: &mut Ctx, mut i: usize) {
                         }
                     }
                 }
+            }
+            // ranges that start at the beginning of the text (given as 0 and left open)
+            for b in 0..infos.len() {
+                check_range(ctx, &format!("c09:tmpl:{name}:0-{b}"), text, &c0, (Some(0), Some(infos[b].end)), name);
+                check_range(ctx, &format!("c09:tmpl:{name}:open-{b}"), text, &c0, (None, Some(infos[b].end)), name);
             }
             // the same text behind a byte order mark, every single statement as the range (+3 bytes)
             let with_bom = format!("{}{text}", "\u{feff}");
